@@ -51,16 +51,22 @@ var raceSolvers = append(append([]solverSpec{}, solvers...),
 	}},
 )
 
+// wallFactor: the time limit of a solver run is a CPU-time limit (ulimit -t), so that a verdict does not depend on how loaded
+// the machine is (a goal that needs 2 s of CPU must not time out because 100 other processes compete for the cores); the
+// wall-clock limit is only a backstop, wallFactor times larger.
+const wallFactor = 10
+
 func runSolver(ctx context.Context, s solverSpec, file string, timeoutS int, seed int) (status string, out string, dur float64) {
-	args := s.args(file, timeoutS, seed)
-	cctx, cancel := context.WithTimeout(ctx, time.Duration(timeoutS+2)*time.Second)
+	args := s.args(file, timeoutS*wallFactor, seed)
+	cctx, cancel := context.WithTimeout(ctx, time.Duration(timeoutS*wallFactor+5)*time.Second)
 	defer cancel()
-	cmd := exec.CommandContext(cctx, args[0], args[1:]...)
+	sh := fmt.Sprintf("ulimit -t %d; exec \"$@\"", timeoutS)
+	cmd := exec.CommandContext(cctx, "sh", append([]string{"-c", sh, "sh"}, args...)...)
 	var buf bytes.Buffer
 	cmd.Stdout = &buf
 	cmd.Stderr = &buf
 	t0 := time.Now()
-	_ = cmd.Run()
+	runErr := cmd.Run()
 	dur = time.Since(t0).Seconds()
 	out = buf.String()
 	first := strings.TrimSpace(strings.SplitN(out, "\n", 2)[0])
@@ -84,6 +90,9 @@ func runSolver(ctx context.Context, s solverSpec, file string, timeoutS int, see
 	}
 	if cctx.Err() != nil {
 		return "timeout", out, dur
+	}
+	if ee, ok := runErr.(*exec.ExitError); ok && !ee.Exited() {
+		return "timeout", out, dur // killed by the CPU-time limit (SIGXCPU / SIGKILL)
 	}
 	if strings.Contains(out, "error") || strings.Contains(out, "Error") {
 		return "error", out, dur
